@@ -44,6 +44,8 @@ SameBag(a, b) == Len(a) = Len(b) /\ \A k \in DOMAIN a : Count(a, a[k]) = Count(b
 SameBagByGroup(exp, got) ==
     \A g \in Groups(exp) \cup Groups(got) :
         SameBag(SelectSeq(exp, LAMBDA m : m.group = g), SelectSeq(got, LAMBDA m : m.group = g))
+(* A bare node has no sink: nothing to compare (its children are checked).  *)
+Bare(i) == i > 1 /\ "bare" \in DOMAIN nodes[i - 1]
 SinkOK(i, got) ==
     IF HasBatchGroupByAbove(src, nodes, i - 1) THEN SameBagByGroup(acc[i], got) ELSE SameByGroup(acc[i], got)
 
@@ -59,7 +61,7 @@ TrEnd ==
        (* shape of the reference outputs (acc only grows: checking it here  *)
        (* covers every earlier state of the trace)                          *)
     /\ (OutputsWellFormed /\ EdgeKindOK) = TRUE
-    /\ (\A i \in DOMAIN acc : amb[i] \/ SinkOK(i, Ln.sinks[i])) = TRUE
+    /\ (\A i \in DOMAIN acc : amb[i] \/ Bare(i) \/ SinkOK(i, Ln.sinks[i])) = TRUE
        (* NoSiblingInterference on the code: in a fork the sinks are read   *)
        (* after the drain, so a branch that changed shared data shows up    *)
        (* above; in a chain a later change of a delivered message is drift. *)
